@@ -63,6 +63,13 @@ fn scene(zone_name: &str, az: f32, tilt: f32, setback: f32, obst: &str, fillers:
     let wg = geom(tilt, az, Some([3.0, -2.0, 1.5]), rect(4.0, 3.0));
     let mut w = wall("W0", BoundaryType::EXTERIOR, wc, uid("S1"), None, wg.clone());
     let mut v = window("V0", winc, uid("W0"), Some([1.2, 0.9]), 1.5, 1.2, setback);
+    // every other scene lists the same wall outline from its third corner: the frame windows are placed in (origin at
+    // the first vertex, x along the first edge) is then turned by 180 degrees, and the same physical window has the
+    // coordinates (4 - 1.2 - 1.5, 3 - 0.9 - 1.2) in it
+    if fillers % 2 == 1 || (obst.len() + positions) % 2 == 1 {
+        w.geometry.polygon = vec![point![4.0, 3.0], point![0.0, 3.0], point![0.0, 0.0], point![4.0, 0.0]];
+        v.geometry.position = Some(point![4.0 - 1.2 - 1.5, 3.0 - 0.9 - 1.2]);
+    }
     if let Some(s) = obstacle(obst, &wg) {
         m.shades.push(s);
     }
@@ -92,13 +99,17 @@ pub struct RefF {
 
 /// reference F_sh,obst for one window from the statement (None: no value expected)
 pub fn reference_f(m: &Model, win: &Window) -> Option<RefF> {
+    reference_f_in(m, win, true)
+}
+
+pub fn reference_f_in(m: &Model, win: &Window, reveals_in_outline_frame: bool) -> Option<RefF> {
     let wall = m.walls.iter().find(|w| w.id == win.wall)?;
     let zone = m.meta.climate;
     let latitude = CLIMATEMETADATA.lock().unwrap().get(&zone)?.latitude;
     let rad: Vec<climatedata::RadData> = JULYRADDATA.lock().unwrap().get(&zone)?.clone();
     let origins = m.ray_origins_for_window(win);
     let wall_pose = Pose::of(&wall.geometry);
-    let occs: Vec<Occ> = geo::occluders(m, wall.id, win);
+    let occs: Vec<Occ> = geo::occluders_in(m, wall.id, win, reveals_in_outline_frame);
     let (mut lo_sum, mut hi_sum, mut dshare) = (0.0, 0.0, 0.0);
     let mut unob = true;
     let mut hidden = true;
@@ -230,6 +241,12 @@ fn check_scene(ctx: &Ctx, m: &Model, case: &dyn Fn() -> Value, acc: &mut Acc, cl
                 }
                 if gg < e.lo - 0.0051 || gg > e.hi + 0.0051 {
                     let cls = if (gg - 1.0).abs() < 1e-6 { "reports-1" } else if gg > e.hi { "too-high" } else { "too-low" };
+                    // a set-back window in a wall whose outline does not start at the local origin along +x: the code places
+                    // the reveal surfaces in wall-local coordinates although the window (its sample points) lives in the frame
+                    // of the outline. If the value is what that misplacement gives, it is that finding and nothing else.
+                    let wall = m.walls.iter().find(|w| w.id == win.wall);
+                    let misplaced = win.geometry.setback.abs() >= 0.01 && wall.map_or(false, |w| !geo::outline_frame_is_local(&w.geometry)) && reference_f_in(m, win, false).map_or(false, |a| gg >= a.lo - 0.0051 && gg <= a.hi + 0.0051);
+                    let cls = if misplaced { "reveals-placed-in-wall-local-coordinates-not-in-the-frame-of-the-outline" } else { cls };
                     ctx.violation(&format!("f_shobst:differs-from-ray-casting:{}", cls), &format!("F={} but brute-force casting gives [{:.4},{:.4}] (window {})", g, e.lo, e.hi, win.name), json!({"case": case(), "window": win.name, "model": serde_json::to_value(m).unwrap()}));
                 }
                 if e.unobstructed && claim_unobstructed != Some(false) && gg < 0.97 - 1e-6 {
@@ -356,7 +373,7 @@ pub fn run(ctx: &Ctx) -> i32 {
     ctx.sample(json!({"part": "scene", "zone": zones[t[0]], "azimuth": AZS[t[1]], "tilt": TILTS[t[2]], "setback_idx": t[3], "obstacle": OBST[t[4]], "fillers": FILLERS[t[5]], "positions": t[6]}));
     ctx.finish(
         "model_checking",
-        &format!("full product zones({}) x window-wall azimuth(8) x tilt{{90,45,0}} x setback{{0,0.2}} x obstacle{{none, facing wall at 1/5/20 m, overhang, big overhang, side fin, half cover, behind, below}} x far-away filler occluders{{0,29,30,31,60}} (crossing the BVH leaf size) x positions{{all, window without, wall without}}; oracle: brute-force f64 ray/polygon casting from the code's own sample points over the statement's occluder set (reveals recomputed), bands: 1 mm from an outline, |n.d|<0.02, sun within 0.02 of the back-face threshold; F in [lo-0.005, hi+0.005], in [0,1], >= 0.97 when nothing can be hit, diffuse share when hidden at every hour, sample points on the window rectangle in the set-back plane; exact monotonicity when each alphabet obstacle (one as a wall) is added; two-window models over all ordered pairs of wall poses (azimuth(4) x tilt(3) x second azimuth{{same,+90}} x tilt(3) x list order x second window with / without position); shipped models with and without extra obstacles; non-trivial = some ray can be blocked", zones.len()),
+        &format!("full product zones({}) x window-wall azimuth(8) x tilt{{90,45,0}} x setback{{0,0.2}} x obstacle{{none, facing wall at 1/5/20 m, overhang, big overhang, side fin, half cover, behind, below}} x far-away filler occluders{{0,29,30,31,60}} (crossing the BVH leaf size) x positions{{all, window without, wall without}} (every other scene lists the wall outline from its third corner, the window staying where it is); oracle: brute-force f64 ray/polygon casting from the code's own sample points over the statement's occluder set (reveals recomputed), bands: 1 mm from an outline, |n.d|<0.02, sun within 0.02 of the back-face threshold; F in [lo-0.005, hi+0.005], in [0,1], >= 0.97 when nothing can be hit, diffuse share when hidden at every hour, sample points on the window rectangle in the set-back plane; exact monotonicity when each alphabet obstacle (one as a wall) is added; two-window models over all ordered pairs of wall poses (azimuth(4) x tilt(3) x second azimuth{{same,+90}} x tilt(3) x list order x second window with / without position); shipped models with and without extra obstacles; non-trivial = some ray can be blocked", zones.len()),
         true,
         json!({"scenes": n}),
     )
